@@ -65,7 +65,7 @@ fuzz_campaign() { # flags suffix
   local total=0
   for i in $(seq 1 12); do
     rc=$(cat "$C/rc$i" 2>/dev/null || echo 0)
-    n=$(grep -h "stat::number_of_executed_units" "$C/log$i" | awk '{print $2}'); total=$((total + ${n:-0}))
+    n=$(grep -h "stat::number_of_executed_units" "$C/log$i" | tail -n 1 | awk '{print $2}'); total=$((total + ${n:-0}))
     if [ "$rc" != "0" ] && [ "$rc" != "124" ]; then
       art=$(ls "$C/a$i"/crash-* 2>/dev/null | head -n 1)
       if [ -n "$art" ]; then
